@@ -27,6 +27,16 @@ type badMarshaler struct{}
 
 func (badMarshaler) MarshalJSON() ([]byte, error) { return nil, errors.New("cannot marshal") }
 
+// resErrMarshaler fails to marshal with an error of the library's own error type (plain and wrapped)
+type resErrMarshaler struct{ wrap bool }
+
+func (m resErrMarshaler) MarshalJSON() ([]byte, error) {
+	if m.wrap {
+		return nil, fmt.Errorf("lookup failed: %w", res.ErrNotFound)
+	}
+	return nil, res.ErrNotFound
+}
+
 type invalidMarshaler struct{}
 
 func (invalidMarshaler) MarshalJSON() ([]byte, error) { return []byte(`{"a":`), nil }
@@ -48,6 +58,8 @@ var c07Values = []struct {
 	{"nan", math.NaN(), false},
 	{"badmarshaler", badMarshaler{}, false},
 	{"invalidmarshaler", invalidMarshaler{}, false},
+	{"reserrmarshaler", resErrMarshaler{}, false},
+	{"wrappedreserrmarshaler", resErrMarshaler{wrap: true}, false},
 }
 
 var c07Methods = map[string][]string{
